@@ -8,7 +8,7 @@ CHECKS = {
         technique="runtime monitoring: crash/hang/RSS monitor on sacrificial front-end workers (mutation + hostile import graphs)",
         category="exploration", design="§4 C03",
         text="Held-on-observed: the real scanner/parser/resolver/typechecker run in sacrificial child processes on tens of thousands (quick) to "
-             "hundreds of thousands (thorough) of near-valid mutants of every .ddp file in the repository and on hostile import graphs; the monitor "
+             "hundreds of thousands (thorough) of near-valid mutants of every .ddp file in the repository, on hostile import graphs, on C04's catalogue of statically ill-formed programs and on 1 123 grammar-combinatorial programs (alias targets, operator-overload arities, shadowing, single-statement bodies, selective imports); the monitor "
              "watches for panics escaping parser.Parse, Go fatal errors, CPU-time and RSS budgets. Exploration is the right level: the input space is "
              "all byte strings, reach comes from mutation diversity.",
         note="Trusts: the Go runtime's fatal-error reporting, the CPU/RSS budgets (5 s + 2 ms/byte, 256 MiB + 64 KiB/byte, 256 MiB stack) as the meaning of 'bounded'."),
@@ -17,7 +17,7 @@ CHECKS = {
         category="exploration", design="§4 C07",
         text="Held-on-observed: every diagnostic delivered to parser.Options.ErrorHandler on mutants, targeted error positions and import graphs is "
              "checked against the range law and rendered by the real MakeAdvancedHandler; errors>=1 <=> Faulty per module; kddp exit status and "
-             "artefact presence are compared with the front-end verdict on a seeded sample.",
+             "artefact presence are compared with the front-end verdict on a seeded sample (both link modes); metamorphic law: a warning-only statement inserted into every function body of an accepted corpus program leaves it accepted.",
         note="Trusts: the probe's independent range law (code-point columns, line split on \\n); an error value returned by Parse counts as a delivered error."),
     "C13": dict(
         technique="runtime monitoring: law monitor + independent reference lexer over the tokens returned by the real scanner (exhaustive short strings)",
@@ -31,7 +31,7 @@ CHECKS = {
         technique="runtime monitoring: reference-model monitor (independent evaluator) on stdout/exit status of compiled programs at -O 0/1/2",
         category="exploration", design="§4 C01, §10",
         text="Held-on-observed: seeded well-typed core-language programs (operator cell sweep over boundary value pools, random expression trees, random statement "
-             "programs with every loop form, functions, Referenz parameters, Kombinationen, Variable) are compiled by the real kddp and run; every tagged observation "
+             "programs with every loop form, functions, Referenz parameters, Kombinationen, Variable; producer/consumer compositions: wrapping arithmetic over extreme operands consumed directly by comparisons, operators, conversions and conditions) are compiled by the real kddp and run; every tagged observation "
              "line and the exit status are compared byte for byte with ddpmodel's reference evaluator. Programs are generated-and-filtered by the model so they stay "
              "in the domain where it is authoritative; a failing program is reduced and reported by the shape of the reduced witness.",
         note="Trusts: the reference evaluator (validated on a hand-written broad program and on upstream's rules, DESIGN §8); Python float == IEEE double with glibc formatting; locale shim."),
@@ -39,23 +39,23 @@ CHECKS = {
         technique="runtime monitoring: outcome monitor on the real tools over an exhaustively enumerated operator x type-class x context space",
         category="exploration", design="§4 C02, §10",
         text="Held-on-observed, exhaustive in a finite space: every unary/binary/ternary operator and cast over 22 operand type classes, operands as variables and as "
-             "temporaries, in up to 20 value contexts; each cell is one function. The real front end selects the accepted cells; programs assembled from accepted cells "
-             "only must be compiled and linked by kddp. Failures are bisected down to single cells.",
+             "temporaries and - one slot at a time - as operands spanning several basic blocks, in up to 20 value contexts; statement-level cells (loop headers, repeat counts, assignments, declarations, returns, arguments, field defaults) over the same type classes; each cell is one function. The real front end selects the accepted cells; programs assembled from accepted cells "
+             "only must be compiled and linked by kddp and their emitted IR must pass llvm-as. Failures are bisected down to single cells.",
         note="Trusts: nothing but the tools' own outcomes; quick samples the context dimension (thorough enumerates it)."),
     "C04": dict(
         technique="runtime monitoring: invariant monitor at the front end's diagnostic boundary on single-fault programs with positive controls",
         category="exploration", design="§4 C04, §10",
         text="Held-on-observed: front-end-accepted base programs get exactly one injected static fault (catalogue of ~330 faults over 45 classes: scoping, redeclaration, "
              "operand/initialiser/assignment/argument/condition/bound/return types, Konstante mutation, loop control, missing return, visibility across modules, "
-             "articles) at five syntactic sites; each fault has a well-formed twin that must be accepted. The faulty program must yield >= 1 error and Faulty; a "
+             "articles; return rules over every function declaration form x return type) at five syntactic sites; each fault has a well-formed twin that must be accepted. The faulty program must yield >= 1 error and Faulty; a "
              "sample goes through kddp (exit != 0, no executable).",
         note="Trusts: the catalogue entries are ill-formed by construction (each validated standalone against its twin); faults whose twin is not accepted at a site are discarded and counted."),
     "C05": dict(
-        technique="runtime monitoring: allocation ledger (link-time --wrap of ddp_reallocate) + valgrind memcheck + ASan/UBSan runtime on generated programs",
+        technique="runtime monitoring: allocation ledger (link-time --wrap of ddp_reallocate) + valgrind memcheck + ASan/UBSan runtime + ASan-instrumented emitted IR on generated programs",
         category="exploration", design="§4 C05, §10",
-        text="Held-on-observed: ownership-biased generated programs run under three monitors - the ledger checks every (pointer, old size, new size) event against its "
+        text="Held-on-observed: ownership-biased generated programs run under four monitors - the ledger checks every (pointer, old size, new size) event against its "
              "shadow table and that nothing is live at normal exit, at -O 0/1/2; memcheck watches the unmodified optimised executable; the ASan+UBSan build of runtime and "
-             "stdlib watches library code. A violating program is reduced under the same monitor.",
+             "stdlib watches library code; the IR kddp emits is instrumented by AddressSanitizer (every load/store of generated code). A violating program is reduced under the same monitor.",
         note="Trusts: interposition sees every ddp_reallocate call of generated code, runtime and stdlib; blocks obtained by plain malloc are counted as foreign, not judged; ASan leak detection is off."),
     "C06": dict(
         technique="runtime monitoring: reference-model monitor, one execution per (length, index) pair of argument-driven access programs",
@@ -91,7 +91,7 @@ CHECKS = {
         category="exploration", design="§4 C11, §10",
         text="Held-on-observed: generated programs with a self-contained print prelude (no imports, so --module-linken=false applies) and upstream's runnable programs are "
              "compiled under every configuration; exit status, stdout and run-time error class must agree. Disagreeing generated programs are reduced while two "
-             "configurations still disagree.",
+             "configurations still disagree. Multi-module programs (C10's generated import graphs with global initialisers) are built merged and with every imported module compiled separately (one kddp call per module, system linker) at -O 0/1/2.",
         note="Trusts: nothing but equality of observed behaviour; programs depending on time/randomness/environment are excluded by a deny list."),
     "C12": dict(
         technique="runtime monitoring: history checker against Python str on direct calls into the ASan/UBSan-built runtime + exhaustive scalar sweep + compiled programs",
